@@ -527,6 +527,18 @@ func (w *vkWorld) vkConfirm(s vkScenario, class string) (int, string) {
 
 func (w *vkWorld) vkReport(s vkScenario, r vkRunResult) {
 	c := w.c
+	// shortest counterexample first: a violating pair is reduced to one of its tampers when that
+	// tamper alone produces the same class of violation
+	if len(s.Tampers) > 1 {
+		for i := range s.Tampers {
+			s1 := s
+			s1.Tampers = []vkTamper{s.Tampers[i]}
+			if r1 := w.vkRun(s1, true); r1.verdict.Viol != "" && r1.verdict.Class == r.verdict.Class {
+				w.vkReport(s1, r1)
+				return
+			}
+		}
+	}
 	n, msg := w.vkConfirm(s, r.verdict.Class)
 	if n < 5 {
 		c.Add("dropped_unreproducible", 1)
@@ -563,6 +575,7 @@ func (w *vkWorld) vkKey(s vkScenario, class string) string {
 		}
 		t = append(t, fmt.Sprintf("%s@%s:%s", x.Kind, zone, role))
 	}
+	sort.Strings(t)
 	k := class + "|" + strings.Join(t, "+")
 	if len(s.Tampers) == 0 {
 		k = fmt.Sprintf("%s|untampered:%s/%s", class, s.Q.Name, dns.TypeToString[s.Q.Type])
@@ -647,6 +660,9 @@ func TestVerifC01Tamper(t *testing.T) {
 	}
 }
 
+var vkCDKinds = map[string]bool{"flip-answer": true, "flip-sig": true, "drop-sigs": true, "downgrade": true, "forge-unsigned": true,
+	"inject-answer-oz": true, "attacker-resign": true, "signer-ancestor-inject": true}
+
 // vkQueryCases: baseline, no-anchor run, and every (position, kind) single tamper for one query.
 func (w *vkWorld) vkQueryCases(rot int, q vkQuery, kinds []vkKind) {
 	c := w.c
@@ -683,6 +699,17 @@ func (w *vkWorld) vkQueryCases(rot int, q vkQuery, kinds []vkKind) {
 	}
 	if !q.F.CD {
 		w.vkKeyPairs(rot, q, r0.firstPath)
+	}
+	if q.F.CD && c.Quick() {
+		// toward a CD client the property only withholds AD: the quick tier runs a representative subset
+		// of the kinds for the four CD=1 flag sets (the thorough tier runs them all)
+		var sub []vkKind
+		for _, k := range kinds {
+			if vkCDKinds[k.Name] {
+				sub = append(sub, k)
+			}
+		}
+		kinds = sub
 	}
 	sampled := false
 	for pos, ex := range r0.firstPath {
@@ -811,8 +838,12 @@ func vkPairs(c *vkit.Ctx) {
 		}
 	}
 	f := h_resolver.Flags{DO: true}
-	qs := []vkQuery{{"a.s.t.", dns.TypeA, f}, {"x.w.s.t.", dns.TypeA, f}, {"nx.h.t.", dns.TypeA, f}, {"ext.s.t.", dns.TypeA, f}, {"a.alias.d.t.", dns.TypeA, f},
-		{"a.c.p.t.", dns.TypeA, f}, {"a.uc.o.t.", dns.TypeA, f}, {"s.t.", dns.TypeDS, f}, {"toins.s.t.", dns.TypeA, f}, {"y.w.h.t.", dns.TypeA, f}}
+	var qs []vkQuery
+	for _, nm := range vkNames {
+		for _, qt := range []uint16{dns.TypeA, dns.TypeDS} {
+			qs = append(qs, vkQuery{Name: nm.Name, Type: qt, F: f})
+		}
+	}
 	type single struct {
 		pos int
 		tm  vkTamper
